@@ -15,10 +15,16 @@ type vCsvChain struct {
 	last    map[string]*TxOutResp // last non-error answer per txid (nil entry: "no such output")
 	lastErr map[string]bool
 	asked   map[string]int
+	pending map[string]*vCsvAnswer // answer drawn ahead for the next gettxout of that txid
+}
+
+type vCsvAnswer struct {
+	kind  int
+	confs uint32
 }
 
 func newCsvChain() *vCsvChain {
-	return &vCsvChain{last: map[string]*TxOutResp{}, lastErr: map[string]bool{}, asked: map[string]int{}}
+	return &vCsvChain{last: map[string]*TxOutResp{}, lastErr: map[string]bool{}, asked: map[string]int{}, pending: map[string]*vCsvAnswer{}}
 }
 
 func (c *vCsvChain) GetBlockHeight() (uint64, error) {
@@ -36,16 +42,29 @@ func (c *vCsvChain) GetRawtransactionWithBlockHash(txId string, blockHash string
 
 // draws are named per txid so that Go's random map iteration order (HandleCsvTx ranges over
 // the watch list) does not change which scripted value an answer gets.
+func vDrawCsvAnswer(txid string) *vCsvAnswer {
+	if txid == "tx-a" {
+		return &vCsvAnswer{kind: zzverif.Choice("a.txout.kind", 3), confs: zzverif.U32("a.txout.confs")}
+	}
+	return &vCsvAnswer{kind: zzverif.Choice("b.txout.kind", 3), confs: zzverif.U32("b.txout.confs")}
+}
+
+// prepare draws the answer of the next gettxout for txid ahead of the call.  HandleCsvTx asks
+// in map iteration order, which differs from run to run natively; drawing ahead in a fixed
+// order (tx-a, tx-b) keeps the sequence of draws of a native run equal to the symbolic one
+// (translator validation compares the sequences).  The answers stay independent fresh values
+// per output and per query, so nothing is lost: the watcher treats the entries of one
+// notification independently of each other.
+func (c *vCsvChain) prepare(txid string) { c.pending[txid] = vDrawCsvAnswer(txid) }
+
 func (c *vCsvChain) GetTxOut(txid string, vout uint32) (*TxOutResp, error) {
 	c.asked[txid]++
-	var kind int
-	var confs uint32
-	if txid == "tx-a" {
-		kind, confs = zzverif.Choice("a.txout.kind", 3), zzverif.U32("a.txout.confs")
-	} else {
-		kind, confs = zzverif.Choice("b.txout.kind", 3), zzverif.U32("b.txout.confs")
+	a := c.pending[txid]
+	if a == nil {
+		a = vDrawCsvAnswer(txid) // a second query in the same phase: fresh answer
 	}
-	switch kind {
+	delete(c.pending, txid)
+	switch a.kind {
 	case 0:
 		c.lastErr[txid] = true
 		return nil, errors.New("gettxout failed")
@@ -54,7 +73,7 @@ func (c *vCsvChain) GetTxOut(txid string, vout uint32) (*TxOutResp, error) {
 		c.last[txid] = nil
 		return nil, nil
 	}
-	r := &TxOutResp{Confirmations: confs}
+	r := &TxOutResp{Confirmations: a.confs}
 	c.lastErr[txid] = false
 	c.last[txid] = r
 	return r, nil
@@ -65,12 +84,30 @@ type vCsvGhost struct {
 	csv     map[string]uint32 // swap id -> registered csv
 	tx      map[string]string // swap id -> txid
 	calls   map[string]int
-	okCalls map[string]int // callbacks the swap service accepted (returned nil)
+	okCalls map[string]int  // callbacks the swap service accepted (returned nil)
+	cbErr   map[string]bool // the swap service's answer to the next callback, drawn ahead
+	cbDrawn map[string]bool
+}
+
+func vDrawCsvCbErr(swapId string) bool {
+	if swapId == "swap-a" {
+		return zzverif.Bool("a.cb.err")
+	}
+	return zzverif.Bool("b.cb.err")
+}
+
+// prepare: one phase (a registration, or one block notification) asks gettxout at most once
+// per registration and calls back at most once per registration; both answers are drawn
+// ahead in a fixed order, see vCsvChain.prepare.
+func (g *vCsvGhost) prepare(swapId string) {
+	g.chain.prepare(g.tx[swapId])
+	g.cbErr[swapId], g.cbDrawn[swapId] = vDrawCsvCbErr(swapId), true
 }
 
 func vCsvWatcher() (*BlockchainRpcTxWatcher, *vCsvGhost) {
 	ch := newCsvChain()
-	g := &vCsvGhost{chain: ch, csv: map[string]uint32{}, tx: map[string]string{}, calls: map[string]int{}, okCalls: map[string]int{}}
+	g := &vCsvGhost{chain: ch, csv: map[string]uint32{}, tx: map[string]string{}, calls: map[string]int{}, okCalls: map[string]int{},
+		cbErr: map[string]bool{}, cbDrawn: map[string]bool{}}
 	l := NewBlockchainRpcTxWatcher(context.Background(), ch, 3)
 	l.AddCsvCallback(func(swapId string) error {
 		g.calls[swapId]++
@@ -88,12 +125,11 @@ func vCsvWatcher() (*BlockchainRpcTxWatcher, *vCsvGhost) {
 			zzverif.Assert(r.Confirmations >= g.csv[swapId], "C20.rpc_csv_depth")
 		}
 		zzverif.Reach("rpc_csv_callback")
-		var acc bool
-		if swapId == "swap-a" {
-			acc = !zzverif.Bool("a.cb.err")
-		} else {
-			acc = !zzverif.Bool("b.cb.err")
+		if !g.cbDrawn[swapId] {
+			g.cbErr[swapId] = vDrawCsvCbErr(swapId) // a second callback in the same phase: fresh answer
 		}
+		acc := !g.cbErr[swapId]
+		g.cbDrawn[swapId] = false
 		if !acc {
 			return errors.New("swap service rejected the event")
 		}
@@ -112,15 +148,24 @@ func vCsvEntry(two bool, blocks int) {
 	zzverif.Unwind(16)
 	l, g := vCsvWatcher()
 	g.csv["swap-a"], g.tx["swap-a"] = zzverif.U32("a.csv"), "tx-a"
+	g.prepare("swap-a")
 	l.AddWaitForCsvTx("swap-a", "tx-a", zzverif.U32("a.vout"), zzverif.U32("a.start"), g.csv["swap-a"], nil)
 	_, watchedA := l.csvtxWatchList["swap-a"]
 	// an immediately accepted callback must not leave a registration behind
 	zzverif.Assert(watchedA == (g.okCalls["swap-a"] == 0), "C20.rpc_csv_registered_iff_not_yet_accepted")
 	if two {
 		g.csv["swap-b"], g.tx["swap-b"] = zzverif.U32("b.csv"), "tx-b"
+		g.prepare("swap-b")
 		l.AddWaitForCsvTx("swap-b", "tx-b", zzverif.U32("b.vout"), zzverif.U32("b.start"), g.csv["swap-b"], nil)
 	}
 	for i := 0; i < blocks; i++ {
+		// answers for the registrations still on the list, in the fixed order a, b
+		if _, on := l.csvtxWatchList["swap-a"]; on {
+			g.prepare("swap-a")
+		}
+		if _, on := l.csvtxWatchList["swap-b"]; on {
+			g.prepare("swap-b")
+		}
 		err := l.HandleCsvTx(zzverif.U64("block"))
 		zzverif.Assert(err == nil, "C20.rpc_csv_handle_never_fails")
 	}
